@@ -70,7 +70,7 @@ def df_subset(inp, W):
         a, k = _mk_condition(W, data, inp["cond"])
         out = getattr(data, m)(*a, **k)
     elif m in ("slice", "slice_off"):
-        out = getattr(data, m)(rows=inp["rows"])
+        out = getattr(data, m)(rows=inp["rows"], cols=inp.get("cols"))
     elif m in ("head", "tail"):
         out = getattr(data, m)(inp["n"])
     elif m == "drop_na":
@@ -468,3 +468,43 @@ def lod_history(inp, W):
     for i in range(len(nodes)):
         w0 = warnings[i]; use(i, lambda x: x.pluck); second.append(warnings[i] - w0)
     return {"flags": flags, "warnings_total": list(warnings), "second_use": second}
+
+# ---------------------------------------------------------------------------- C07 aggregation helpers
+
+@op
+def np_reduce(inp, W):
+    """oracle call: the real NumPy reducer on concrete values (stands in for the uninterpreted function)"""
+    np = W.np
+    x = np.array(inp["values"], dtype=float)
+    name = inp["name"]
+    import warnings
+    with warnings.catch_warnings():
+        warnings.simplefilter("ignore")
+        if name == "mean": r = np.mean(x)
+        elif name == "median": r = np.median(x)
+        elif name == "std": r = np.std(x, ddof=inp.get("ddof", 0))
+        elif name == "var": r = np.var(x, ddof=inp.get("ddof", 0))
+        elif name == "quantile": r = np.quantile(x, inp["q"])
+        else: raise ValueError(name)
+    return float(r)
+
+def _helper_kwargs(inp):
+    kw = {}
+    for k in ("drop_na", "ddof"):
+        if inp.get(k) is not None: kw[k] = inp[k]
+    return kw
+
+@op
+def agg_helper(inp, W):
+    di = W.di
+    name = inp["helper"]
+    f = getattr(di, name)
+    kw = _helper_kwargs(inp)
+    pos = []
+    if name == "nth": pos = [inp["index"]]
+    if name == "quantile": pos = [inp["q"]]
+    if inp["form"] == "vector":
+        return {"out": f(inp["x"], *pos, **kw)}
+    data = di.DataFrame(g=inp["g"], x=inp["x"])
+    out = data.group_by("g").aggregate(y=f("x", *pos, **kw))
+    return {"out": out}
